@@ -3,6 +3,7 @@ import PySMT.Proofs.C04World
 # C04 — everything the public constructors build is `Normal`
 -/
 namespace PySMT.Manager
+set_option linter.unusedVariables false
 
 /-- every node of the manager has a content the public constructors produce -/
 def NState (s : Mgr) (addr : Nid → Nat) : Prop := ∀ c k, (c, k) ∈ s.formulae → Normal s addr true c
@@ -109,7 +110,7 @@ theorem createNode_nstate {s : Mgr} (hs : Inv s) {addr : Nid → Nat} (hn : NSta
     · have := (hsp.1.range _ _ hd).2; omega
     · have hk' : k = s.nextId := by have := (hsp.1.range _ _ hd).2; omega
       subst hk'
-      have hmem := hsp.2.2.1 _ h2
+      have hmem := h2
       have hdc : d = c := hsp.1.tinj _ _ _ hd hmem
       subst hdc
       have hv : ∀ j ∈ d.ids, 0 < j ∧ j < s.nextId := fun j hj => hsp.1.closed d _ hmem j hj
@@ -158,8 +159,8 @@ theorem PubOK.of_run {addr : Nid → Nat} {α : Type} {p : Prog α}
 
 /-- a step that adds at most the returned node, whose content is normal -/
 theorem step_nstate {s s' : Mgr} (hs : Inv s) (hs' : Inv s') (he : Ext s s') {addr : Nid → Nat}
-    (hn : NState s addr) {r : Except Err Nid} (hnext : AtMostNew s r s') {c : Content}
-    (hmem : ∀ j, r = .ok j → (c, j) ∈ s'.formulae) (hc : Normal s' addr true c) : NState s' addr := by
+    (hn : NState s addr) {c : Content} (hnext : NewIs s s' c) (hc : Normal s' addr true c) :
+    NState s' addr := by
   intro d k hd
   by_cases hk : k < s.nextId
   · have hpos := (hs'.range _ _ hd).1
@@ -168,14 +169,14 @@ theorem step_nstate {s s' : Mgr} (hs : Inv s) (hs' : Inv s') (he : Ext s s') {ad
     · have := (hs'.range _ _ hd).2; omega
     · have hk' : k = s.nextId := by have := (hs'.range _ _ hd).2; omega
       subst hk'
-      rw [hs'.tinj _ _ _ hd (hmem _ h2)]; exact hc
+      rw [hs'.tinj _ _ _ hd h2]; exact hc
 
 theorem pub_symbol (addr : Nid → Nat) (n : String) (t : Ty) : PubOK addr (mkSymbol n t) := by
   intro s hs hn
   rw [mkSymbol, prim_run]
   simp only [Prim.exec]
   have hsp := symbolPrim_spec n t s hs
-  exact step_nstate hs hsp.1.inv hsp.1.ext hn (symbolPrim_next n t s) hsp.2 (.base (.symbol n t))
+  exact step_nstate hs hsp.1.inv hsp.1.ext hn (symbolPrim_next n t s) (.base (.symbol n t))
 
 theorem pub_real (addr : Nid → Nat) (v : PyNum) : PubOK addr (mkReal v) := by
   intro s hs hn
@@ -187,9 +188,7 @@ theorem pub_real (addr : Nid → Nat) (v : PyNum) : PubOK addr (mkReal v) := by
     have : realConst v s = (.error e, s) := by simp [realConst, hv]
     rw [this]; exact hn
   | ok q =>
-    refine step_nstate hs hsp.1.inv hsp.1.ext hn (realConst_next v s) (c := realC q) (fun j hj => ?_) (.base (.real q))
-    obtain ⟨q', hq', hm⟩ := hsp.2 j hj
-    rw [hv] at hq'; cases hq'; exact hm
+    exact step_nstate hs hsp.1.inv hsp.1.ext hn (realConst_next v s hv) (.base (.real q))
 
 theorem pub_int (addr : Nid → Nat) (v : PyNum) : PubOK addr (mkInt v) := by
   intro s hs hn
@@ -198,9 +197,7 @@ theorem pub_int (addr : Nid → Nat) (v : PyNum) : PubOK addr (mkInt v) := by
   have hsp := intConst_spec v s hs
   cases v with
   | int n =>
-    refine step_nstate hs hsp.1.inv hsp.1.ext hn (intConst_next _ s) (c := intC n) (fun j hj => ?_) (.base (.int n))
-    obtain ⟨m, hm1, hm⟩ := hsp.2 j hj
-    cases hm1; exact hm
+    exact step_nstate hs hsp.1.inv hsp.1.ext hn (intConst_next n s) (.base (.int n))
   | _ => simpa [intConst, PyNum.intValue] using hn
 
 theorem pub_string (addr : Nid → Nat) (v : PyStr) : PubOK addr (mkString v) := by
@@ -211,7 +208,7 @@ theorem pub_string (addr : Nid → Nat) (v : PyStr) : PubOK addr (mkString v) :=
     rw [mkString, prim_run]
     simp only [Prim.exec]
     have hsp := strConst_spec x s hs
-    exact step_nstate hs hsp.1.inv hsp.1.ext hn (strConst_next x s) hsp.2 (.base (.str x))
+    exact step_nstate hs hsp.1.inv hsp.1.ext hn (strConst_next x s) (.base (.str x))
 
 theorem pub_bool (addr : Nid → Nat) (v : PyNum) : PubOK addr (mkBool v) := by
   cases v <;> first | exact PubOK.pure' _ | exact PubOK.fail _
@@ -426,6 +423,268 @@ theorem pub_bvShift (addr : Nid → Nat) {nt : Nat} (h : nt ∈ bvBinNTs) (l : N
     exact PubOK.bvw l (fun s w hs hn _ =>
       PubOK.bind' (pub_bvConst addr (.int n) (some w)) (fun r => pub_bvBin addr h l r) s hs hn)
 
+/-! ### composite constructors -/
+
+theorem plain_IMPLIES : NT.IMPLIES ∈ plainNTs := by simp [plainNTs]
+theorem plain_ITE : NT.ITE ∈ plainNTs := by simp [plainNTs]
+
+theorem pub_atMostOneAux (addr : Nid → Nat) : ∀ l, PubOK addr (atMostOneAux l)
+  | [] => PubOK.pure' _
+  | [_] => PubOK.pure' _
+  | e :: b :: rest =>
+    PubOK.bind' (pub_or addr _) fun o => PubOK.bind' (pub_not addr o) fun n =>
+      PubOK.bind' (pub_plain addr plain_IMPLIES _) fun imp =>
+        PubOK.bind' (pub_atMostOneAux addr (b :: rest)) fun cs => PubOK.pure' _
+
+theorem pub_atMostOne (addr : Nid → Nat) (l : List Nid) : PubOK addr (mkAtMostOne l) :=
+  PubOK.bind' (pub_atMostOneAux addr l) fun cs => pub_and addr cs
+
+theorem pub_exactlyOne (addr : Nid → Nat) (l : List Nid) : PubOK addr (mkExactlyOne l) :=
+  PubOK.bind' (pub_or addr l) fun o => PubOK.bind' (pub_atMostOne addr l) fun a => pub_and addr _
+
+theorem pub_allDiffRow (addr : Nid → Nat) (a : Nid) : ∀ l, PubOK addr (allDiffRow a l)
+  | [] => PubOK.pure' _
+  | b :: t =>
+    PubOK.bind' (pub_equalsOrIff addr a b) fun e => PubOK.bind' (pub_not addr e) fun n =>
+      PubOK.bind' (pub_allDiffRow addr a t) fun r => PubOK.pure' _
+
+theorem pub_allDiffAux (addr : Nid → Nat) : ∀ l, PubOK addr (allDiffAux l)
+  | [] => PubOK.pure' _
+  | a :: t =>
+    PubOK.bind' (pub_allDiffRow addr a t) fun row => PubOK.bind' (pub_allDiffAux addr t) fun rest => PubOK.pure' _
+
+theorem pub_allDifferent (addr : Nid → Nat) (l : List Nid) : PubOK addr (mkAllDifferent l) :=
+  PubOK.bind' (pub_allDiffAux addr l) fun cs => pub_and addr cs
+
+theorem pub_ite (addr : Nid → Nat) (c a b : Nid) : PubOK addr (create ⟨NT.ITE, [c, a, b], .none⟩) :=
+  pub_plain addr plain_ITE [c, a, b]
+
+theorem pub_minMaxAux (addr : Nid → Nat) (isMin : Bool) (le : Nid → Nid → Prog Nid)
+    (hle : ∀ a b, PubOK addr (le a b)) : ∀ (fuel : Nat) (l : List Nid), PubOK addr (minMaxAux isMin le fuel l)
+  | 0, _ => PubOK.fail _
+  | fuel + 1, [] => PubOK.fail _
+  | fuel + 1, [a] => PubOK.pure' a
+  | fuel + 1, [a, b] => by
+    simp only [minMaxAux]
+    refine PubOK.bind' (hle a b) fun c => ?_
+    cases isMin <;> exact pub_ite addr _ _ _
+  | fuel + 1, a :: b :: c :: t => by
+    simp only [minMaxAux]
+    refine PubOK.bind' (pub_minMaxAux addr isMin le hle fuel _) fun x => ?_
+    refine PubOK.bind' (pub_minMaxAux addr isMin le hle fuel _) fun y => ?_
+    refine PubOK.bind' (hle x y) fun z => ?_
+    cases isMin <;> exact pub_ite addr _ _ _
+
+theorem pub_minMax (addr : Nid → Nat) (isMin : Bool) {leNT : Nat} (h : leNT ∈ plainNTs) (l : List Nid) :
+    PubOK addr (mkMinMax isMin leNT l) :=
+  pub_minMaxAux addr isMin _ (fun a b => pub_plain addr h [a, b]) _ l
+
+theorem pub_concatFold (addr : Nid → Nat) : ∀ (l : List Nid) (res : Nid), PubOK addr (concatFold res l)
+  | [], res => PubOK.pure' res
+  | a :: t, res => PubOK.bind' (pub_bvConcat2 addr res a) fun r => pub_concatFold addr t r
+
+theorem pub_bvConcat (addr : Nid → Nat) : ∀ l, PubOK addr (mkBVConcat l)
+  | [] => PubOK.fail _
+  | [_] => PubOK.fail _
+  | a :: b :: t => PubOK.bind' (pub_bvConcat2 addr a b) fun r => pub_concatFold addr t r
+
+theorem pub_bvNotOf (addr : Nid → Nat) {nt : Nat} (h : nt ∈ bvBinNTs) (l r : Nid) : PubOK addr (mkBVNotOf nt l r) := by
+  refine PubOK.bind' ?_ fun x => pub_bvUn addr (by simp [bvUnNTs]) x
+  split
+  · exact pub_bvBin addr h l r
+  · exact pub_bvNary addr h _
+
+theorem pub_bvRepeat_go (addr : Nid → Nat) (f : Nid) : ∀ (n : Nat) (res : Nid), PubOK addr (mkBVRepeat.go f res n)
+  | 0, res => PubOK.pure' res
+  | n + 1, res => PubOK.bind' (pub_bvConcat addr _) fun r => pub_bvRepeat_go addr f n r
+
+theorem pub_bvRepeat (addr : Nid → Nat) (f : Nid) (count : Int) : PubOK addr (mkBVRepeat f count) :=
+  pub_bvRepeat_go addr f _ f
+
+theorem pub_sbv (addr : Nid → Nat) (v : BvVal) (w : Option Nat) : PubOK addr (mkSBV v w) := by
+  unfold mkSBV
+  cases v with
+  | int n =>
+    cases w with
+    | none => exact PubOK.fail _
+    | some w =>
+      simp only
+      repeat (first | exact PubOK.fail _ | exact pub_bvConst addr _ _ | split)
+  | str x => exact pub_bvConst addr _ _
+  | other => exact pub_bvConst addr _ _
+
+theorem pub_bvPy (addr : Nid → Nat) (v : BvVal) (w : PyWidth) : PubOK addr (mkBVpy v w) := by
+  unfold mkBVpy
+  repeat (first | exact PubOK.fail _ | exact pub_bvConst addr _ _ | split)
+
+theorem pub_sbvPy (addr : Nid → Nat) (v : BvVal) (w : PyWidth) : PubOK addr (mkSBVpy v w) := by
+  unfold mkSBVpy
+  repeat (first | exact PubOK.fail _ | exact pub_sbv addr _ _ | exact pub_bvPy addr _ _ | split)
+
+theorem pub_bvRotPy (addr : Nid → Nat) {nt : Nat} (h : nt = NT.BV_ROL ∨ nt = NT.BV_ROR) (x : Nid) (n : Option Int) :
+    PubOK addr (mkBVRotPy nt x n) := by
+  cases n with
+  | none => exact PubOK.fail _
+  | some n => exact pub_bvRot addr h x n
+
+theorem pub_bvExtPy (addr : Nid → Nat) {nt : Nat} (h : nt = NT.BV_ZEXT ∨ nt = NT.BV_SEXT) (x : Nid) (n : Option Int) :
+    PubOK addr (mkBVExtPy nt x n) := by
+  cases n with
+  | none => exact PubOK.fail _
+  | some n => exact pub_bvExt addr h x n
+
+/-- a step that creates no node keeps the state normal -/
+theorem nstate_same_next {s s' : Mgr} (hs : Inv s) (hs' : Inv s') (he : Ext s s') (hnx : s'.nextId = s.nextId)
+    {addr : Nid → Nat} (hn : NState s addr) : NState s' addr := by
+  intro d k hd
+  have hr := hs'.range _ _ hd
+  exact hn.mono_nodes hs hs' he d k (valid_mem hs hr.1 (by omega) hs' he hd)
+
+theorem PubOK.setFresh {addr : Nid → Nat} {α : Type} (n : Nat) {k : Nid → Prog α} (hk : ∀ i, PubOK addr (k i)) :
+    PubOK addr (Prog.prim (.setFresh n) k) := by
+  intro s hs hn
+  simp only [Prog.run, Prim.exec]
+  have hi : Inv { s with fresh := n } := hs.congr rfl rfl rfl rfl rfl rfl
+  exact hk 0 _ hi (nstate_same_next hs hi ⟨fun _ h => h, Nat.le_refl _⟩ rfl hn)
+
+theorem PubOK.internTy {addr : Nid → Nat} {α : Type} (t : Ty) {k : Nid → Prog α} (hk : ∀ i, PubOK addr (k i)) :
+    PubOK addr (Prog.prim (.internTy t) k) := by
+  intro s hs hn
+  simp only [Prog.run, Prim.exec]
+  have h1 := internTyPrim_spec t s hs
+  cases hi : internTyPrim t s with
+  | mk r s1 =>
+    rw [hi] at h1
+    have hnx : s1.nextId = s.nextId := by
+      unfold internTyPrim at hi
+      split at hi <;> (cases hi; rfl)
+    have hn1 := nstate_same_next hs h1.inv h1.ext hnx hn
+    cases r with
+    | error e => exact hn1
+    | ok u => exact hk u s1 h1.inv hn1
+
+theorem pub_fresh (addr : Nid → Nat) (t : Ty) (pre post : String) : PubOK addr (mkFreshSymbol t pre post) :=
+  PubOK.read (fun s hs hn => PubOK.setFresh _ (fun _ => pub_symbol addr _ t) s hs hn)
+
+theorem pub_toReal (addr : Nid → Nat) (f : Nid) : PubOK addr (mkToReal f) := by
+  intro s hs hn
+  simp only [mkToReal, typeOfP, bind]
+  rw [read_run]
+  cases hty : s.typeOf f with
+  | none => simpa [Prog.bind, Prog.run] using hn
+  | some t =>
+    simp only [Prog.bind]
+    split
+    · exact hn
+    next hnr =>
+      split
+      next hti =>
+        subst hti
+        cases hc : s.content? f with
+        | none => simpa [PySMT.Manager.getC, Prog.bind, Prog.run, hc] using hn
+        | some c =>
+          rw [getC_run hc]
+          split
+          · split
+            · exact pub_real addr _ s hs hn
+            · exact hn
+          next hnc =>
+            refine create_nstate_at hs hn (.toReal f hty (fun cx hcx => ?_))
+            rw [hs.tinj _ _ _ hcx (content?_mem hc)]; exact hnc
+      · exact hn
+
+theorem pub_div (addr : Nid → Nat) (l r : Nid) : PubOK addr (mkDiv l r) := by
+  intro s hs hn
+  show NState (((getC r).bind _).run s).2 addr
+  cases hc : s.content? r with
+  | none => simpa [PySMT.Manager.getC, Prog.bind, Prog.run, hc] using hn
+  | some c =>
+    rw [getC_run hc]
+    simp only
+    split
+    next hz =>
+      refine create_nstate_at hs hn (.div l r (fun cy hcy => ?_))
+      rw [hs.tinj _ _ _ hcy (content?_mem hc)]
+      simp only [Bool.or_eq_true, Bool.and_eq_true, decide_eq_true_eq, beq_iff_eq] at hz
+      rcases hz with ⟨_, h2⟩ | ⟨h1, _⟩
+      · exact Or.inr h2
+      · exact Or.inl (by rw [h1]; decide)
+    next hz =>
+      split
+      next hr =>
+        split
+        · exact PubOK.bind' (pub_real addr _) (fun inv => pub_times addr _) s hs hn
+        · exact hn
+      next hr =>
+        refine create_nstate_at hs hn (.div l r (fun cy hcy => ?_))
+        rw [hs.tinj _ _ _ hcy (content?_mem hc)]
+        exact Or.inl hr
+
+theorem pub_pow (addr : Nid → Nat) (b e : Nid) : PubOK addr (mkPow b e) := by
+  intro s hs hn
+  simp only [mkPow, isConstP, bind]
+  rw [read_run]
+  simp only [Prog.bind]
+  cases he : s.isConstant e with
+  | false => exact PubOK.fail _ s hs hn
+  | true =>
+    simp only [Bool.not_true, Bool.false_eq_true, if_false]
+    simp only [Prog.run]
+    cases hb : s.isConstant b with
+    | false =>
+      simp only [Bool.false_eq_true, if_false]
+      exact create_nstate_at hs hn (.pow b e he hb)
+    | true =>
+      simp only [if_true]
+      refine PubOK.getC b (fun s1 cb hs1 hn1 _ => ?_) s hs hn
+      refine PubOK.getC e (fun s2 ce hs2 hn2 _ => ?_) s1 hs1 hn1
+      split
+      · split
+        · exact pub_real addr _ s2 hs2 hn2
+        · exact hn2
+      · split
+        · exact pub_real addr _ s2 hs2 hn2
+        · exact hn2
+      · exact hn2
+
+theorem pub_bvSMod (addr : Nid → Nat) (x y : Nid) : PubOK addr (mkBVSMod x y) := by
+  have hneg : NT.BV_NEG ∈ bvUnNTs := by simp [bvUnNTs]
+  have hurem : NT.BV_UREM ∈ bvBinNTs := by simp [bvBinNTs]
+  have hadd : NT.BV_ADD ∈ bvBinNTs := by simp [bvBinNTs]
+  unfold mkBVSMod
+  refine PubOK.bvw x (fun st m hs hn _ => ?_)
+  suffices h : PubOK addr (α := Nid) _ from h st hs hn
+  refine PubOK.bind' (pub_bvConst addr _ _) (fun _ => ?_)
+  refine PubOK.bind' (pub_bvConst addr _ _) (fun _ => ?_)
+  refine PubOK.bind' (pub_bvExtract addr _ _ _) (fun _ => ?_)
+  refine PubOK.bind' (pub_bvExtract addr _ _ _) (fun _ => ?_)
+  refine PubOK.bind' (pub_plain addr plain_EQUALS _) (fun _ => ?_)
+  refine PubOK.bind' (pub_bvUn addr hneg _) (fun _ => ?_)
+  refine PubOK.bind' (pub_plain addr plain_ITE _) (fun _ => ?_)
+  refine PubOK.bind' (pub_plain addr plain_EQUALS _) (fun _ => ?_)
+  refine PubOK.bind' (pub_bvUn addr hneg _) (fun _ => ?_)
+  refine PubOK.bind' (pub_plain addr plain_ITE _) (fun _ => ?_)
+  refine PubOK.bind' (pub_bvBin addr hurem _ _) (fun _ => ?_)
+  refine PubOK.bind' (pub_bvConst addr _ _) (fun _ => ?_)
+  refine PubOK.bind' (pub_plain addr plain_EQUALS _) (fun _ => ?_)
+  refine PubOK.bind' (pub_plain addr plain_EQUALS _) (fun _ => ?_)
+  refine PubOK.bind' (pub_plain addr plain_EQUALS _) (fun _ => ?_)
+  refine PubOK.bind' (pub_and addr _) (fun _ => ?_)
+  refine PubOK.bind' (pub_plain addr plain_EQUALS _) (fun _ => ?_)
+  refine PubOK.bind' (pub_plain addr plain_EQUALS _) (fun _ => ?_)
+  refine PubOK.bind' (pub_and addr _) (fun _ => ?_)
+  refine PubOK.bind' (pub_plain addr plain_EQUALS _) (fun _ => ?_)
+  refine PubOK.bind' (pub_plain addr plain_EQUALS _) (fun _ => ?_)
+  refine PubOK.bind' (pub_and addr _) (fun _ => ?_)
+  refine PubOK.bind' (pub_bvUn addr hneg _) (fun _ => ?_)
+  refine PubOK.bind' (pub_bvNary addr hadd _) (fun _ => ?_)
+  refine PubOK.bind' (pub_bvNary addr hadd _) (fun _ => ?_)
+  refine PubOK.bind' (pub_bvUn addr hneg _) (fun _ => ?_)
+  refine PubOK.bind' (pub_or addr _) (fun _ => ?_)
+  refine PubOK.bind' (pub_plain addr plain_ITE _) (fun _ => ?_)
+  refine PubOK.bind' (pub_plain addr plain_ITE _) (fun _ => ?_)
+  exact pub_plain addr plain_ITE _
+
 /-- Constructor calls covered so far by the public-constructor invariant. -/
 inductive IsPub (addr : Nid → Nat) : Prog Nid → Prop
   | symbol (n : String) (t : Ty) : IsPub addr (mkSymbol n t)
@@ -455,6 +714,26 @@ inductive IsPub (addr : Nid → Nat) : Prog Nid → Prop
   | bvConcat2 (x y : Nid) : IsPub addr (mkBVConcat2 x y)
   | bvExtract (x : Nid) (st : Int) (en : Option Int) : IsPub addr (mkBVExtract x st en)
   | bvComp (x y : Nid) : IsPub addr (mkBVComp x y)
+  | fresh (t : Ty) (pre post : String) : IsPub addr (mkFreshSymbol t pre post)
+  | toReal (f : Nid) : IsPub addr (mkToReal f)
+  | div (l r : Nid) : IsPub addr (mkDiv l r)
+  | pow (b e : Nid) : IsPub addr (mkPow b e)
+  | minMax (isMin : Bool) {leNT : Nat} (h : leNT ∈ plainNTs) (l : List Nid) : IsPub addr (mkMinMax isMin leNT l)
+  | atMostOne (l : List Nid) : IsPub addr (mkAtMostOne l)
+  | exactlyOne (l : List Nid) : IsPub addr (mkExactlyOne l)
+  | allDifferent (l : List Nid) : IsPub addr (mkAllDifferent l)
+  | bvConcat (l : List Nid) : IsPub addr (mkBVConcat l)
+  | bvNotOf {nt : Nat} (h : nt ∈ bvBinNTs) (l r : Nid) : IsPub addr (mkBVNotOf nt l r)
+  | bvSMod (x y : Nid) : IsPub addr (mkBVSMod x y)
+  | bvRepeat (f : Nid) (n : Int) : IsPub addr (mkBVRepeat f n)
+  | sbv (v : BvVal) (w : Option Nat) : IsPub addr (mkSBV v w)
+  | bvPy (v : BvVal) (w : PyWidth) : IsPub addr (mkBVpy v w)
+  | sbvPy (v : BvVal) (w : PyWidth) : IsPub addr (mkSBVpy v w)
+  | bvRotPy {nt : Nat} (h : nt = NT.BV_ROL ∨ nt = NT.BV_ROR) (x : Nid) (n : Option Int) : IsPub addr (mkBVRotPy nt x n)
+  | bvExtPy {nt : Nat} (h : nt = NT.BV_ZEXT ∨ nt = NT.BV_SEXT) (x : Nid) (n : Option Int) : IsPub addr (mkBVExtPy nt x n)
+  | ret (i : Nid) : IsPub addr (pure i)
+  | reject (e : Err) : IsPub addr (failP e)
+  | internTy (t : Ty) : IsPub addr (Prog.prim (.internTy t) Prog.pure)
 
 theorem IsPub.ok {addr : Nid → Nat} {p : Prog Nid} (h : IsPub addr p) : PubOK addr p := by
   cases h with
@@ -485,23 +764,89 @@ theorem IsPub.ok {addr : Nid → Nat} {p : Prog Nid} (h : IsPub addr p) : PubOK 
   | bvConcat2 x y => exact pub_bvConcat2 addr x y
   | bvExtract x st en => exact pub_bvExtract addr x st en
   | bvComp x y => exact pub_bvComp addr x y
+  | fresh t pre post => exact pub_fresh addr t pre post
+  | toReal f => exact pub_toReal addr f
+  | div l r => exact pub_div addr l r
+  | pow b e => exact pub_pow addr b e
+  | minMax isMin h l => exact pub_minMax addr isMin h l
+  | atMostOne l => exact pub_atMostOne addr l
+  | exactlyOne l => exact pub_exactlyOne addr l
+  | allDifferent l => exact pub_allDifferent addr l
+  | bvConcat l => exact pub_bvConcat addr l
+  | bvNotOf h l r => exact pub_bvNotOf addr h l r
+  | bvSMod x y => exact pub_bvSMod addr x y
+  | bvRepeat f n => exact pub_bvRepeat addr f n
+  | sbv v w => exact pub_sbv addr v w
+  | bvPy v w => exact pub_bvPy addr v w
+  | sbvPy v w => exact pub_sbvPy addr v w
+  | bvRotPy h x n => exact pub_bvRotPy addr h x n
+  | bvExtPy h x n => exact pub_bvExtPy addr h x n
+  | ret i => exact PubOK.pure' i
+  | reject e => exact PubOK.fail e
+  | internTy t => exact PubOK.internTy t (fun i => PubOK.pure i)
 
-/-- manager states reached through (the covered) public constructors only -/
+theorem arrayCheck_const {s : Mgr} {it : Ty} {d : Nid} : ∀ {l : List (Nid × Nid)},
+    arrayCheck s it d l = none → ∀ kv ∈ l, s.isConstant kv.1 = true
+  | [], _, kv, hkv => by cases hkv
+  | (k, v) :: t, h, kv, hkv => by
+    simp only [arrayCheck] at h
+    split at h
+    · cases h
+    next hk =>
+      split at h
+      · cases h
+      · rcases List.mem_cons.mp hkv with rfl | h'
+        · simpa using hk
+        · exact arrayCheck_const h kv h'
+
+/-- Constructor calls whose documented precondition refers to the current state:
+    `ForAll/Exists` over symbols, `Array` over a dict (distinct index objects). -/
+inductive IsPubAt (addr : Nid → Nat) (s : Mgr) : Prog Nid → Prop
+  | pub {p : Prog Nid} (h : IsPub addr p) : IsPubAt addr s p
+  | quant {nt : Nat} (hnt : nt = NT.FORALL ∨ nt = NT.EXISTS) (vs : List Nid) (body : Nid)
+      (hsym : ∀ x ∈ vs, ∃ n t, (symC n t, x) ∈ s.formulae) : IsPubAt addr s (mkQuant nt vs body)
+  | array (it : Ty) (d : Nid) (assign : List (Nid × Nid)) (hd : DistinctAddr addr assign) :
+      IsPubAt addr s (mkArray addr it d assign)
+
+theorem IsPubAt.ok {addr : Nid → Nat} {s : Mgr} {p : Prog Nid} (h : IsPubAt addr s p) (hs : Inv s)
+    (hn : NState s addr) : NState (p.run s).2 addr := by
+  cases h with
+  | pub h => exact h.ok s hs hn
+  | quant hnt vs body hsym =>
+    cases vs with
+    | nil => exact hn
+    | cons v t =>
+      simp only [mkQuant, List.isEmpty_cons, Bool.false_eq_true, if_false]
+      exact create_nstate_at hs hn (.base (.quant hnt body v t hsym))
+  | array it d assign hd =>
+    simp only [mkArray, Prog.run]
+    split
+    · exact hn
+    next hchk =>
+      refine create_nstate_at hs hn (.array rfl it d _ (arrayAssignments_sorted hd)
+        (fun kv hkv => (mem_arrayAssignments.mp hkv).2) (fun kv hkv => ?_))
+      have hmem : kv ∈ sortByAddr addr assign := by
+        have := (mem_arrayAssignments (addr := addr) (d := d)).mp hkv
+        exact mem_sortByAddr.mpr this.1
+      exact arrayCheck_const hchk kv hmem
+
+/-- manager states reached through the public constructors only (`normalize` as a step of the
+    history is not included yet) -/
 inductive PubReach (addr : Nid → Nat) : Mgr → Prop
-  | init : PubReach addr Mgr.init
-  | step {s : Mgr} (p : Prog Nid) (hp : IsPub addr p) : PubReach addr s → PubReach addr (p.run s).2
+  | init (tc : Content → Bool) : PubReach addr (Mgr.initWith tc)
+  | step {s : Mgr} (p : Prog Nid) (hp : IsPubAt addr s p) : PubReach addr s → PubReach addr (p.run s).2
 
-theorem nstate_init (addr : Nid → Nat) : NState Mgr.init addr := by
+theorem nstate_init (addr : Nid → Nat) (tc : Content → Bool) : NState (Mgr.initWith tc) addr := by
   intro c k hc
-  simp only [Mgr.init, List.mem_cons, Prod.mk.injEq, List.not_mem_nil, or_false] at hc
+  simp only [Mgr.initWith, List.mem_cons, Prod.mk.injEq, List.not_mem_nil, or_false] at hc
   rcases hc with ⟨rfl, _⟩ | ⟨rfl, _⟩
   · exact .base (.bool false)
   · exact .base (.bool true)
 
 theorem PubReach.spec {addr : Nid → Nat} {s : Mgr} (h : PubReach addr s) : Reachable s ∧ NState s addr := by
   induction h with
-  | init => exact ⟨Reachable.init, nstate_init addr⟩
-  | step p hp _ ih => exact ⟨Reachable.step p ih.1, hp.ok _ ih.1.inv ih.2⟩
+  | init tc => exact ⟨Reachable.init tc, nstate_init addr tc⟩
+  | step p hp _ ih => exact ⟨Reachable.step p ih.1, hp.ok ih.1.inv ih.2⟩
 
 /-- no array value: normal also for the copy into another manager -/
 theorem Normal.to_false {s : Mgr} {addr : Nid → Nat} {c : Content} (h : Normal s addr true c)
